@@ -56,7 +56,7 @@ Eval(q) ==
            invsw |-> V.v = I.v /\ V.ld = I.ld]
 
 \* ---- the builder machine -------------------------------------------------------------------------------------------
-Size(q) == Prod(SemShape(q))
+Size(q) == IF Valid(q) THEN Prod(SemShape(q)) ELSE 0      \* (the shape of an invalid composition is undefined)
 LeafKinds == {"aff", "cadd", "cadd0", "perm", "flip", "ident", "scan", "tril", "triu"}
 MkLeaf(kind, id, s) ==
   CASE kind = "cadd" -> [k |-> "cadd", id |-> id, shape |-> s, cs |-> <<2>>]
@@ -135,6 +135,13 @@ WInvalid == /\ depth < MaxDepth /\ res.valid
                IN \/ Wrap([k |-> "chain", parts |-> <<p, MkLeaf("aff", FreshId, bad)>>])
                   \/ Wrap([k |-> "stack", axis |-> 0, parts |-> <<p, MkLeaf("aff", FreshId, bad)>>])
                   \/ (Len(s) >= 2 /\ Wrap([k |-> "concat", axis |-> 0, parts |-> <<p, MkLeaf("aff", FreshId, ReplaceAt(s, 2, s[2] + 1))>>]))
+                  \* a part of lower RANK whose extents agree with the leading / trailing ones (a zip over the shapes, or an index
+                  \* with a negative axis, would not notice)
+                  \/ (Len(s) >= 1 /\ \E low \in {SubSeq(s, 1, Len(s) - 1), Tail(s)}, first \in BOOLEAN :
+                         \/ Wrap([k |-> "chain", parts |-> IF first THEN <<MkLeaf("aff", FreshId, low), p>> ELSE <<p, MkLeaf("aff", FreshId, low)>>])
+                         \/ Wrap([k |-> "stack", axis |-> 0, parts |-> IF first THEN <<MkLeaf("aff", FreshId, low), p>> ELSE <<p, MkLeaf("aff", FreshId, low)>>]))
+                  \/ (Len(s) >= 2 /\ \E low \in {SubSeq(s, 1, Len(s) - 1), Tail(s)}, ax \in {-1, 0, 1} :
+                         Wrap([k |-> "concat", axis |-> ax, parts |-> <<p, MkLeaf("aff", FreshId, low)>>]))
                   \/ Wrap([k |-> "partial", p |-> p, shape |-> <<2>> \o bad, idx |-> [kind |-> "int", i |-> 0]])
                   \/ Wrap([k |-> "reshape", p |-> p, shape |-> <<Size(p) + 1>>, cs |-> None])
                   \/ (SemCond(p) # None /\ Wrap([k |-> "chain", parts |-> <<p, [k |-> "cadd", id |-> FreshId, shape |-> s, cs |-> <<5>>]>>]))
